@@ -49,11 +49,24 @@ def shard_pm2(seed, n):
             cmds = [('B', rnd.randrange(256)) for _ in range(rnd.choice([1000, 2030, 4090, 8100, 12200]))] \
                 + [('C', rnd.choice([1, 5, 900]), rnd.choice([64, 129, 256]))] + pmarc.pm2_gen(rnd, 300)[1:]
             cmds = [c for c in cmds]
+        end_on = None
+        if i in (5, 6, 7, 8):
+            # output that ends exactly on a table re-read point (1, 2, 4, 8 KiB), with and without the tables behind it
+            end_on = (1024, 2048, 4096, 8192)[i - 5]
+            cmds = pmarc.pm2_gen(rnd, end_on - 300)
+            have = len(pmarc.expand_pm(cmds))
+            while have > end_on - 2:
+                cmds.pop()
+                have = len(pmarc.expand_pm(cmds))
+            cmds += [('B', rnd.randrange(256)) for _ in range(end_on - have - 2)] + [('C', 1, 2) if seed % 2 else ('B', 7), ('B', 9)][:2]
+            cmds = cmds[:-1] if len(pmarc.expand_pm(cmds)) > end_on else cmds
+            while len(pmarc.expand_pm(cmds)) < end_on:
+                cmds.append(('B', rnd.randrange(256)))
         if i == 4:
             # every distance the 8 KiB window permits, once each
             cmds = [('B', (k * 61 + (k >> 8)) & 0xff) for k in range(8300)] + [('C', d, 3 + (d % 4)) for d in range(1, 8193)]
         exp = pmarc.expand_pm(cmds)
-        stream, marks = pmarc.pm2_serialise(cmds, rnd, feat)
+        stream, marks = pmarc.pm2_serialise(cmds, rnd, feat, omit_final_reread=(end_on is not None and seed % 3 != 0))
         c = dech.Case('-pm2-', stream, len(exp), sched=[rnd.choice([1, 100, 256, 5000])] if rnd.random() < 0.3 else [], in_chunk=rnd.choice([0, 0, 1, 3, 7]),
                       meta={'tag': 'mtf-directed' if directed else 'every-distance' if i == 4 else 'random', 'features': sorted(feat)})
         cases.append(c)
